@@ -439,14 +439,19 @@ def _worker(args):
 
 
 class Shards:
-    """the exhaustive space is sharded by grid over forked workers (disjoint grids => disjoint cases)"""
+    """quick tier: the exhaustive space is sharded by grid over forked processes (disjoint grids => disjoint
+    cases), each with its own Lean driver; with pool=0 (thorough tier: ./check already runs several workers,
+    each taking the grids `ctx.mine(k)`) the shard runs inline"""
 
-    def __init__(self, ctx, grids, full_upto, workers):
+    def __init__(self, ctx, batch, impls, grids, full_upto, pool):
+        self.ctx, self.pending, self.pool = ctx, [], None
+        if pool <= 0:
+            exhaustive_chunk(ctx, batch, impls, grids, full_upto)
+            return
         import multiprocessing
-        self.ctx = ctx
-        size = max(1, min(400, len(grids) // (workers * 3) + 1))
+        size = max(1, min(400, len(grids) // (pool * 3) + 1))
         chunks = [grids[i:i + size] for i in range(0, len(grids), size)]
-        self.pool = multiprocessing.get_context("fork").Pool(workers)
+        self.pool = multiprocessing.get_context("fork").Pool(pool)
         self.pending = [self.pool.apply_async(_worker, ((ctx.tier, ctx.seed, c, full_upto),)) for c in chunks]
 
     def collect(self):
@@ -467,8 +472,9 @@ class Shards:
             if len(ctx.samples) < 3:
                 ctx.samples.extend(r["samples"][:3 - len(ctx.samples)])
             ctx.driver.calls += r["driver_calls"]
-        self.pool.close()
-        self.pool.join()
+        if self.pool is not None:
+            self.pool.close()
+            self.pool.join()
 
 
 def random_hist(rng, spec):
@@ -532,7 +538,7 @@ def random_cases(ctx, batch, impls, n_cases, max_dim):
             do_head(ctx, batch, impl, mods, recipe, n, m, ("random",))
 
 
-def unknown_id_cases(ctx, batch, impls, n_cases):
+def unknown_id_cases(ctx, batch, impls, n_cases, fixed=True):
     rng = ctx.rng
     for _ in range(n_cases):
         spec = core.gen_spec(rng, max_n=4, max_m=4, classes=("smallcount", "neg"))
@@ -551,7 +557,7 @@ def unknown_id_cases(ctx, batch, impls, n_cases):
         do_filter(ctx, batch, impl, mods, recipe, axis, {"kind": "ids", "ids": sub},
                   rng.choice(["list", "tuple", "array", "set"]), rng.random() < 0.5, rng.random() < 0.5,
                   ("unknown-id",))
-    for what in ("int", "none", "callable-object"):
+    for what in ("int", "none", "callable-object") if fixed else ():
         for impl, mods in impls:
             spec = small_spec([[1, 0, 2], [0, 3, 0]], 1)
             do_filter(ctx, batch, impl, mods, {"spec": spec, "route": "dense"}, "sample",
@@ -588,17 +594,17 @@ def head_cases(ctx, batch, impls):
                             hn, hm, ("head-grid",))
 
 
-def kernel_cases(ctx, batch, impls, n_cases):
+def kernel_cases(ctx, batch, impls, n_cases, fixed=True):
     rng = ctx.rng
     # fixed: the layout of the design note, the empty matrix, empty vectors only
-    fixed = [
+    fixed_flats = [
         {"nMajor": 3, "nMinor": 3, "indptr": [0, 2, 3, 6], "indices": [2, 0, 1, 0, 1, 2], "data": [5.0, 7.0, 9.0, 1.0, 2.0, 3.0]},
         {"nMajor": 0, "nMinor": 3, "indptr": [0], "indices": [], "data": []},
         {"nMajor": 3, "nMinor": 0, "indptr": [0, 0, 0, 0], "indices": [], "data": []},
         {"nMajor": 2, "nMinor": 2, "indptr": [0, 0, 0], "indices": [], "data": []},
         {"nMajor": 2, "nMinor": 3, "indptr": [0, 3, 5], "indices": [1, 2, 0, 2, 1], "data": [0.0, 4.0, 0.0, 0.0, 6.0]},
     ]
-    for flat in fixed:
+    for flat in (fixed_flats if fixed else []):
         ids = ["v%d" % i for i in range(flat["nMajor"])]
         for sub in subsets(ids):
             for invert in (False, True):
@@ -676,30 +682,42 @@ def run(ctx):
                    "model is read from scipy, sort_indices is modelled by its contract (sortIndices)",
                    "errcheck(table) after filter is C20's concern (default profile: an empty result is accepted)"]
     import os
+    wi, wn = ctx.worker
+    first = wi == 0
     batch = Batch(ctx)
     corpus(ctx, batch, impls)
-    workers = int(os.environ.get("VERIF_WORKERS", "0")) or (4 if ctx.quick() else max(2, min(12, (os.cpu_count() or 2) - 2)))
     if ctx.quick():
+        pool = int(os.environ.get("C08_POOL", "4")) if wn == 1 else 0
         grids = grid_list(ctx, [(1, 1), (1, 2), (2, 1), (1, 3), (3, 1), (2, 2), (2, 3), (3, 2)]) + \
-            [(10000 + i, g) for i, g in grid_list(ctx, [(3, 3)], sample=80)]
-        shards = Shards(ctx, grids, 2, workers)
-        kernel_cases(ctx, batch, impls, 300)
-        unknown_id_cases(ctx, batch, impls, 150)
-        remove_empty_cases(ctx, batch, impls, [(1, 3), (2, 2), (2, 3), (3, 2)], 150)
-        head_cases(ctx, batch, impls)
-        random_cases(ctx, batch, impls, 1500, 6)
+            [(10000 + i, g) for i, g in grid_list(ctx, [(3, 3)], sample=max(1, 80 // wn))]
+        grids = [(k, g) for k, g in grids if k >= 10000 or ctx.mine(k)]
+        shards = Shards(ctx, batch, impls, grids, 2, pool)
+        kernel_cases(ctx, batch, impls, 300 // wn, fixed=first)
+        unknown_id_cases(ctx, batch, impls, 150 // wn, fixed=first)
+        remove_empty_cases(ctx, batch, impls, [(1, 3), (2, 2), (2, 3), (3, 2)], 150 // wn)
+        if first:
+            head_cases(ctx, batch, impls)
+        random_cases(ctx, batch, impls, 1500 // wn, 6)
     else:
-        grids = grid_list(ctx, [(1, 1), (1, 2), (2, 1), (1, 3), (3, 1), (2, 2), (2, 3), (3, 2), (3, 3)])
-        shards = Shards(ctx, grids, 4, workers)
-        kernel_cases(ctx, batch, impls, 6000)
-        unknown_id_cases(ctx, batch, impls, 1500)
-        remove_empty_cases(ctx, batch, impls, [(1, 3), (2, 2), (2, 3), (3, 2), (3, 3)], 4000)
-        head_cases(ctx, batch, impls)
-        random_cases(ctx, batch, impls, 20000, 8)
+        # ./check shards the thorough tier over WORKERS processes: grid number k belongs to worker k mod n
+        pool = 0
+        grids = [(k, g) for k, g in grid_list(ctx, [(1, 1), (1, 2), (2, 1), (1, 3), (3, 1), (2, 2), (2, 3), (3, 2),
+                                                     (3, 3)]) if ctx.mine(k)]
+        shards = Shards(ctx, batch, impls, grids, 4, pool)
+        kernel_cases(ctx, batch, impls, 6000 // wn, fixed=first)
+        unknown_id_cases(ctx, batch, impls, 1500 // wn, fixed=first)
+        remove_empty_cases(ctx, batch, impls, [(1, 3), (2, 2), (2, 3), (3, 2), (3, 3)], 4000 // wn)
+        if first:
+            head_cases(ctx, batch, impls)
+        random_cases(ctx, batch, impls, 24000 // wn, 8)
     batch.flush()
     shards.collect()
-    ctx.notes.append("exhaustive part: %d grids sharded over %d forked workers" % (len(grids), workers))
+    ctx.notes.append("exhaustive part of worker %d/%d: %d grids%s" % (
+        wi, wn, len(grids), " over %d forked processes" % pool if pool else ""))
     ctx.exhaustive = True
+
+
+WORKERS = 12
 
 
 def replay(ctx, rec):
